@@ -456,7 +456,55 @@ def check_shared(c):
     return res
 
 
-CHECKERS = {'shared': check_shared, 'faces': check_faces, 'mono': check_mono, 'linear': check_linear}
+def check_high(c):
+    """High orders on larger grids (n = 31 ... 65): the Chebyshev polynomial T_j of every order j < n as the function (monomials of such
+    degrees are numerically useless as a basis): coefficients are the unit vector, evaluation / re-sampling reproduce cos(j arccos t)."""
+    res = Res()
+    n, d = c['n'], c['d']
+    a, b = BOXES[c['box']]
+    x = nodes(a, b, n)
+    t = np.clip((2 * x - (a + b)) / (b - a), -1.0, 1.0)
+    pts = np.array([a + (b - a) * ((np.sqrt(3) * k) % 1.0) for k in range(1, 12)] + [a, b, (a + b) / 2])
+    tp = np.clip((2 * pts - (a + b)) / (b - a), -1.0, 1.0)
+    for j in c['js']:
+        res.ev()
+        case = dict(c, js=[j])
+        vals = np.cos(j * np.arccos(t))
+        tol = 1e-11 * (1 + j) ** 2
+        with warnings.catch_warnings():
+            warnings.simplefilter('ignore')
+            if d == 1:
+                Ad = teneva.func_int_full(vals)
+                coef = Ad
+                got = teneva.func_get_full(pts.reshape(-1, 1), Ad, a, b)
+                Z = teneva.func_gets_full(Ad, a, b, n + 3)
+                want = np.cos(j * np.arccos(tp))
+            else:
+                v2 = 1.0 + 0.5 * t[:4] if False else None
+                y1 = nodes(a, b, 3)
+                w1 = 1.0 + 0.5 * y1
+                A = teneva.func_int([vals.reshape(1, n, 1), w1.reshape(1, 3, 1)])
+                coef = A[0][0, :, 0] * 1.0
+                X2 = np.stack([pts, np.full(len(pts), (a + b) / 2)], axis=1)
+                got = teneva.func_get(X2, A, a, b)
+                Z = ref.dense(teneva.func_gets(A, [n + 3, 3]))[:, 1] / (1.0 + 0.5 * (a + b) / 2)
+                want = np.cos(j * np.arccos(tp)) * (1.0 + 0.5 * (a + b) / 2)
+                coef = coef / np.abs(A[1]).max() * np.abs(A[1]).max()
+        e_j = np.zeros(n)
+        e_j[j] = 1.0
+        if d == 1:
+            res.check(np.abs(coef - e_j).max() <= tol, 'high.coeff', case, lambda: 'coefficients of T_%d deviate from the unit vector by %.3e' % (j, np.abs(coef - e_j).max()))
+        res.check(np.abs(got - want).max() <= tol * max(1.0, np.abs(want).max()), 'high.get', case,
+                  lambda: 'T_%d on a grid of %d nodes: evaluation deviates by %.3e' % (j, n, np.abs(got - want).max()))
+        xm = nodes(a, b, n + 3)
+        tm = np.clip((2 * xm - (a + b)) / (b - a), -1.0, 1.0)
+        res.check(np.abs(np.asarray(Z).reshape(-1) - np.cos(j * np.arccos(tm))).max() <= tol, 'high.gets', case,
+                  lambda: 'T_%d re-sampled onto %d nodes deviates by %.3e' % (j, n + 3, np.abs(np.asarray(Z).reshape(-1) - np.cos(j * np.arccos(tm))).max()))
+        res.nt((n, d, c['box'], j))
+    return res
+
+
+CHECKERS = {'high': check_high, 'shared': check_shared, 'faces': check_faces, 'mono': check_mono, 'linear': check_linear}
 
 
 def strata(tier, seed):
@@ -485,6 +533,9 @@ def strata(tier, seed):
         for box in (['sym1'], ['asym'], ['unit']):
             cs.append(dict(shape=[n], box=box, ms=[2, n + 3], few=True, seed=seed))
             cs.append(dict(shape=[n, 4], box=box * 2, ms=[3], few=True, seed=seed))
+    hi = [dict(n=n_, d=d_, box=bx, js=sorted({0, 1, 2, 15, 16, 17, 30, 31, 32, 33, n_ - 2, n_ - 1} & set(range(n_))) if tier == 'quick' else list(range(n_)))
+          for n_ in ((31, 32, 33, 40, 65) if tier == 'quick' else (17, 31, 32, 33, 34, 40, 63, 64, 65, 100, 129)) for d_ in (1, 2) for bx in ('sym1', 'asym', 'odd2')]
+    yield Stratum('high orders on larger grids (Chebyshev polynomials as the functions)', hi, 'high', seq=(tier == 'quick'), size=len(hi), chunk=2, bounds={'n': [31, 65 if tier == 'quick' else 129]})
     dec = [-3.0, -1.1, -0.7, -0.3, 0.0, 0.1, 0.2, 0.3, 0.6, 0.7, 0.9, 1.1, 2.3]
     pairs = [(x, y) for x in dec for y in dec if x < y]
     near = [(-1.0, 1.000004), (-1.0, 1.0 + 1e-9), (-300.0, 300.002), (-2.5, 2.5 * (1 - 3e-7)), (-1.0, 1.0), (-0.5, 0.5)]
